@@ -83,11 +83,11 @@ def run(chk, cfg, tier, variants):
                     args = base + ["-n", "--no-heading", "--no-mmap"] + pa + [f]
                 elif v == "passthru":
                     args = base + ["-n", "--no-heading", "--passthru"] + pa + [f]
-                elif v == "json":
-                    args = base + ["--json"] + pa + [f]
+                elif v in ("json", "jsonpass", "jsonreader"):
+                    args = base + ["--json"] + {"json": [], "jsonpass": ["--passthru"], "jsonreader": ["--no-mmap"]}[v] + pa + [f]
                 else:
                     continue
-                if o["nul"] and v != "json":
+                if o["nul"] and not v.startswith("json"):
                     continue
                 jobs.append({"args": args})
                 meta.append((i, v))
@@ -98,7 +98,7 @@ def run(chk, cfg, tier, variants):
             if rc not in (0, 1):
                 why = {"variant": v, "rc": rc, "stderr": se.decode("utf8", "replace")[:300]}
             else:
-                if v == "json":
+                if v.startswith("json"):
                     got = [m["data"]["line_number"] for m in rgrun.json_matches(so) if m.get("type") == "match"]
                 else:
                     got = parse_std(so)
@@ -205,6 +205,9 @@ def main(tier):
     cfgs = [os.environ.get("C01_CFG")] if os.environ.get("C01_CFG") else ["C01_quick"] if tier == "quick" else ["C01_deep"]
     for c in cfgs:
         run(chk, c, tier, ["mmap", "reader", "passthru", "json", "noterm"])
+    if not os.environ.get("C01_CFG"):
+        # --null-data on records that hold line feeds (JSON output only: the text forms cannot show such records line by line)
+        run(chk, "C01_nullf", "thorough", ["json", "jsonpass", "jsonreader"])
     chk.exhaustive = True
     return chk.finish()
 
